@@ -1,1 +1,119 @@
-(* placeholder until the proofs land *)
+(* Properties/C12.v — pinned statements for C12: replacing the compiler binary invalidates its
+   results without a restart.  Model: Model/CompilerCache.v (`legacy = false` is the code after
+   the fix "key the server's compiler cache by requested path as well as resolved path").
+
+   Common premises, both BOOLEAN predicates on the history:
+     wf_history .. = true             the property's own premise: two requests that name the same
+                                      compiler path and see the same mtime there see the same bytes
+     collision_free_in_play .. = true the identity digest and the key hash do not collide on the
+                                      binaries / sources the history touches
+   `detect` (bytes -> identity digest, None = not a compiler) and `H` (identity, source -> key) are
+   universally quantified.  Histories are arbitrary lists of Swap / Retarget / Remove / Touch /
+   Compile over an arbitrary initial file system, served by ONE server (no restart). *)
+From Coq Require Import List NArith Bool.
+From Sccache Require Import Model.CompilerCache Proofs.CompilerCache.
+Import ListNotations.
+Local Open Scope N_scope.
+
+(* The identity digest that goes into a request's key is the digest of the bytes CURRENTLY at the
+   requested path (through links).  Needs no collision-freeness. *)
+Theorem C12_identity_is_current :
+  forall (detect : N -> option N) (H : N -> N -> N) (f0 : fs) (ops : list op),
+    wf_history detect H false f0 ops = true ->
+    forall e, In e (exec detect H false (start f0) ops) ->
+      identity_current detect e = true /\
+      (forall id, e_id e = Some id -> exists b m, e_cur e = Some (b, m) /\ detect b = Some id) /\
+      (forall b m id, e_cur e = Some (b, m) -> detect b = Some id ->
+                      served e <> None /\ e_key e = Some (H id (e_src e))).
+Proof. intros detect H f0 ops WF e I. exact (identity_full detect H f0 ops WF e I). Qed.
+Print Assumptions C12_identity_is_current.
+
+(* Nothing produced by binary A is returned for a request served while binary B <> A is at the
+   path: whatever a request hands back (hit or fresh compile) was produced by the bytes now there. *)
+Theorem C12_no_cross_binary_results :
+  forall (detect : N -> option N) (H : N -> N -> N) (f0 : fs) (ops : list op),
+    collision_free_in_play detect H f0 ops = true ->
+    wf_history detect H false f0 ops = true ->
+    forall e prod, In e (exec detect H false (start f0) ops) -> served e = Some prod ->
+      exists m, e_cur e = Some (prod, m).
+Proof.
+  intros detect H f0 ops CF WF e prod I S. exact (no_cross detect H f0 ops WF e prod CF I S).
+Qed.
+Print Assumptions C12_no_cross_binary_results.
+
+(* Swap back, both directions.  Take any history, any two requests for the same source (through
+   any paths) that both find the working binary A at their path, with ANYTHING in between —
+   in particular swapping another binary B in, compiling with it, and putting A back.  Then the
+   first request was served, and the second is a cache HIT that returns A's object: A's earlier
+   result is valid again, and nothing stored by B in between is returned. *)
+Theorem C12_swap_back :
+  forall (detect : N -> option N) (H : N -> N -> N) (f0 : fs) (h1 h2 : list op) (p p' : path) (src : N),
+    let ops := h1 ++ Compile p src :: h2 ++ [Compile p' src] in
+    collision_free_in_play detect H f0 ops = true ->
+    wf_history detect H false f0 ops = true ->
+    forall e1 e2 A id m1 m2,
+      snd (step detect H false (final detect H false (start f0) h1) (Compile p src)) = Some e1 ->
+      snd (step detect H false (final detect H false (start f0) (h1 ++ Compile p src :: h2))
+                (Compile p' src)) = Some e2 ->
+      detect A = Some id -> e_cur e1 = Some (A, m1) -> e_cur e2 = Some (A, m2) ->
+      e_out e1 <> OFail /\ e_out e2 = OHit A.
+Proof.
+  intros detect H f0 h1 h2 p p' src ops CF WF e1 e2 A id m1 m2 S1 S2 D C1 C2.
+  exact (swap_back detect H f0 ops WF h1 p src h2 p' e1 e2 A id m1 m2 CF eq_refl S1 S2 D C1 C2).
+Qed.
+Print Assumptions C12_swap_back.
+
+(* Two different binaries never share a result key — at the same path at different times, or under
+   the same name at different paths. *)
+Theorem C12_distinct_binaries_never_share :
+  forall (detect : N -> option N) (H : N -> N -> N) (f0 : fs) (ops : list op),
+    collision_free_in_play detect H f0 ops = true ->
+    wf_history detect H false f0 ops = true ->
+    forall e1 e2 b1 m1 b2 m2 k1 k2,
+      In e1 (exec detect H false (start f0) ops) -> In e2 (exec detect H false (start f0) ops) ->
+      e_cur e1 = Some (b1, m1) -> e_cur e2 = Some (b2, m2) -> b1 <> b2 ->
+      e_key e1 = Some k1 -> e_key e2 = Some k2 -> k1 <> k2.
+Proof.
+  intros detect H f0 ops CF WF e1 e2 b1 m1 b2 m2 k1 k2 I1 I2 C1 C2 NE K1 K2.
+  exact (distinct_never_share detect H f0 ops WF e1 e2 b1 m1 b2 m2 k1 k2 CF I1 I2 C1 C2 NE K1 K2).
+Qed.
+Print Assumptions C12_distinct_binaries_never_share.
+
+(* The premise is necessary (documented limit of mtime re-validation, not a finding): a different
+   binary installed with the SAME mtime — directly, or by retargeting a differently named link
+   between two binaries with equal mtimes — is served with the old identity and the old object. *)
+Theorem C12_same_mtime_refuted :
+  (collision_free_in_play detect_w H_w [] ops_same_mtime = true /\
+   wf_history detect_w H_w false [] ops_same_mtime = false /\
+   existsb (fun e => negb (identity_current detect_w e) && negb (producer_current e))
+           (exec detect_w H_w false (start []) ops_same_mtime) = true) /\
+  (collision_free_in_play detect_w H_w [] ops_same_mtime_link = true /\
+   wf_history detect_w H_w false [] ops_same_mtime_link = false /\
+   existsb (fun e => negb (identity_current detect_w e) && negb (producer_current e))
+           (exec detect_w H_w false (start []) ops_same_mtime_link) = true).
+Proof. exact (conj same_mtime_refuted same_mtime_link_refuted). Qed.
+Print Assumptions C12_same_mtime_refuted.
+
+(* The code AS FOUND (`legacy = true`, map keyed by the resolved path only) violates the property
+   inside the premise: two links named gcc to one binary, the first one retargeted; the request
+   through the second link is keyed on the right identity but EXECUTES the first link's new target,
+   and the object is cached under the old binary's key.  Fixed (same history, legacy = false: every
+   request is right); the witness is corpus/C12/inproc.sx. *)
+Theorem C12_shared_entry_refuted :
+  collision_free_in_play detect_w H_w [] ops_shared_entry = true /\
+  wf_history detect_w H_w true [] ops_shared_entry = true /\
+  existsb (fun e => identity_current detect_w e && negb (producer_current e))
+          (exec detect_w H_w true (start []) ops_shared_entry) = true /\
+  forallb (fun e => identity_current detect_w e && producer_current e)
+          (exec detect_w H_w false (start []) ops_shared_entry) = true.
+Proof. exact shared_entry_refuted. Qed.
+Print Assumptions C12_shared_entry_refuted.
+
+(* Non-vacuity: a history with a swap, a swap back, links and a non-compiler satisfies both
+   premises, and is served as the theorems say. *)
+Example C12_premises_nonvacuous :
+  collision_free_in_play detect_w H_w [] ops_example = true /\
+  wf_history detect_w H_w false [] ops_example = true /\
+  map e_out (exec detect_w H_w false (start []) ops_example) =
+    [OMiss 1; OMiss 2; OHit 1; OHit 1; OUnsupported; OHit 2].
+Proof. exact example_in_premise. Qed.
